@@ -128,7 +128,29 @@ export async function roundTrip(ctx, parser, name, vals, repaired = false) {
   return null;
 }
 
+// one program per repaired defect of describe()
+const TEXT_PROBES = [
+  { id: "empty-union", text: "type X = { type?: Array<never | never> };", values: [{}, { type: [] }, { type: [1] }] },
+  { id: "template-text-needing-escapes", text: "type X = `C:\\\\dir${string}` | `tick\\`${number}` | `dollar\\${x${string}`;", values: ["C:\\dirx", "tick`1", "dollar${xq", "other"] },
+  { id: "one-part-template-with-quotes", text: 'type X = { k: `say "hi"\\\\n` };', values: [{ k: 'say "hi"\\n' }, { k: "x" }] },
+  { id: "function-typed-member", text: "type X = { name: string; cb: () => void };", values: [{ name: "n", cb: () => 1 }, { name: "n", cb: 1 }] },
+  { id: "quoted-keys-and-index-signatures", text: 'type X = { "a-b": 1; "with space"?: string; [k: string]: string | number };', values: [{ "a-b": 1 }, { "a-b": 1, z: "s" }, { "a-b": 2 }] },
+  { id: "bigint-and-tuple-rest", text: "type R = [string, ...R[]];\ntype X = { b: bigint; r: R };", values: [{ b: 1n, r: ["a", ["b"]] }, { b: 1, r: ["a"] }] },
+  { id: "string-literals-needing-escapes", text: 'type X = "C:\\\\dir\\\\\\"my file\\"" | "line\\nbreak" | { k: "it\'s" };', values: ['C:\\dir\\"my file"', "line\nbreak", { k: "it's" }, "x"] },
+];
+
 export async function run(ctx) {
+  if (ctx.shard === 0) {
+    for (const p of TEXT_PROBES) {
+      const text = `${p.text}\nexport const Parsers = parse.buildParsers<{ X: X }>();\n`;
+      const r = await compileText(ctx, text);
+      if (!r.parsers) throw new Error(`C15 probe ${p.id} does not compile: ${JSON.stringify(r.res.diagnostics?.[0]?.message ?? r.res.outcome)}`);
+      const f = await roundTrip(ctx, r.parsers.X, "X", p.values);
+      ctx.judged();
+      ctx.count("probes");
+      if (f) ctx.violation({ signature: `${f.clause}|${f.cause}|probe:${p.id}`, clause: f.clause, detail: `${p.text}\n${f.detail}`.slice(0, 2000), replay: { kind: "describe", text, parser: "X", value: null, hasValue: false } });
+    }
+  }
   const nProgs = ctx.share(1600, 40000);
   let sampled = 0;
   for await (const item of corpus(ctx, { label: "C15", count: nProgs, features: FEATURES })) {
